@@ -39,15 +39,16 @@ import (
 
 const prop = "C15"
 
-// sigBoundChildWindow names a genuine defect found by this check (see proposed_fix_1.diff):
-// deleter.deleteBoundChildren deletes a bound child's storage before the child has any
-// tombstone, so in the window between TreeManager.DeleteTree(child) and state.Delete(child) a
-// head update / put / fetch recreates it. While known_findings.json lists the signature as
-// "known", interrupts placed AFTER a call-out on an id whose status is still NotDeleted are
-// not performed (excluded by construction, counted in Outcome.Excluded).
+// sigBoundChildWindow names a genuine defect found by this check (fixed in /repo by 1acf2ec =
+// proposed_fix_2.diff; regression TestRegBoundChildWindow): deleter.deleteBoundChildren deletes a
+// bound child's storage before the child has any tombstone, so in the window between
+// TreeManager.DeleteTree(child) and state.Delete(child) a head update / put / fetch recreated it.
+// Only while known_findings.json lists the signature with status "known" (it is "fixed" now, so
+// the guard is inactive) interrupts placed AFTER a call-out on an id whose status is still
+// NotDeleted are not performed (excluded by construction, counted in Outcome.Excluded).
 const sigBoundChildWindow = "bound-child-deleted-before-tombstoned"
 
-// noExclusion switches the by-construction exclusion off (TestKnownBoundChildWindow only);
+// noExclusion switches the by-construction exclusion off (TestRegBoundChildWindow only);
 // windowExercised reports that the last run performed an interrupt in exactly that window.
 var noExclusion, windowExercised bool
 
@@ -999,4 +1000,5 @@ func TestReplay(t *testing.T) {
 	outerT = t
 	t.Run("TestRandom", func(t *testing.T) { vstat.Replay(t, prop, "TestRandom", run) })
 	t.Run("TestScenarios", func(t *testing.T) { vstat.Replay(t, prop, "TestScenarios", run) })
+	t.Run("TestRegBoundChildWindow", func(t *testing.T) { vstat.Replay(t, prop, "TestRegBoundChildWindow", run) })
 }
